@@ -193,6 +193,12 @@ func DerivesFrom(v ssa.Value, src func(ssa.Value) bool) bool {
 					}
 				}
 			}
+		case *ssa.BinOp:
+			if x.Op == token.ADD {
+				if b, ok := x.Type().Underlying().(*types.Basic); ok && b.Info()&types.IsString != 0 {
+					return walk(x.X) || walk(x.Y)
+				}
+			}
 		case *ssa.Call:
 			if b, ok := x.Call.Value.(*ssa.Builtin); ok && (b.Name() == "len" || b.Name() == "cap") && len(x.Call.Args) == 1 {
 				return walk(x.Call.Args[0])
@@ -938,4 +944,108 @@ func ResolveLoad(v ssa.Value) ssa.Value {
 		v = sts[0]
 	}
 	return v
+}
+
+// Loop is a natural loop of a function's CFG.
+type Loop struct {
+	Header *ssa.BasicBlock
+	Blocks map[*ssa.BasicBlock]bool
+}
+
+// Loops computes the natural loops of fn (one per header; bodies of back edges to the same header are merged).
+func Loops(fn *ssa.Function) []*Loop {
+	byHeader := map[*ssa.BasicBlock]*Loop{}
+	var order []*ssa.BasicBlock
+	for _, t := range fn.Blocks {
+		for _, h := range t.Succs {
+			if !h.Dominates(t) {
+				continue
+			}
+			l := byHeader[h]
+			if l == nil {
+				l = &Loop{Header: h, Blocks: map[*ssa.BasicBlock]bool{h: true}}
+				byHeader[h] = l
+				order = append(order, h)
+			}
+			// nodes that reach t without passing h
+			work := []*ssa.BasicBlock{t}
+			for len(work) > 0 {
+				b := work[len(work)-1]
+				work = work[:len(work)-1]
+				if l.Blocks[b] {
+					continue
+				}
+				l.Blocks[b] = true
+				work = append(work, b.Preds...)
+			}
+		}
+	}
+	var out []*Loop
+	for _, h := range order {
+		out = append(out, byHeader[h])
+	}
+	return out
+}
+
+// InnermostLoop returns the smallest loop containing b (nil if none).
+func InnermostLoop(fn *ssa.Function, b *ssa.BasicBlock) *Loop {
+	var best *Loop
+	for _, l := range Loops(fn) {
+		if l.Blocks[b] && (best == nil || len(l.Blocks) < len(best.Blocks)) {
+			best = l
+		}
+	}
+	return best
+}
+
+// EveryIterationPasses decides whether every complete iteration of loop l (a path from the header back to
+// the header inside the loop) executes an instruction satisfying pred, and reports early exits: edges that
+// leave the loop from a block other than the header.
+func EveryIterationPasses(l *Loop, pred func(ssa.Instruction) bool) (always bool, earlyExits []*ssa.BasicBlock) {
+	always = true
+	// walk from the header's in-loop successors, stopping at blocks that execute pred
+	seen := map[*ssa.BasicBlock]bool{}
+	var work []*ssa.BasicBlock
+	for _, s := range l.Header.Succs {
+		if l.Blocks[s] && s != l.Header {
+			work = append(work, s)
+		}
+	}
+	for len(work) > 0 {
+		b := work[len(work)-1]
+		work = work[:len(work)-1]
+		if seen[b] {
+			continue
+		}
+		seen[b] = true
+		killed := false
+		for _, in := range b.Instrs {
+			if pred(in) {
+				killed = true
+				break
+			}
+		}
+		if killed {
+			continue
+		}
+		for _, s := range b.Succs {
+			if s == l.Header {
+				always = false
+			}
+			if l.Blocks[s] {
+				work = append(work, s)
+			}
+		}
+	}
+	for b := range l.Blocks {
+		if b == l.Header {
+			continue
+		}
+		for _, s := range b.Succs {
+			if !l.Blocks[s] {
+				earlyExits = append(earlyExits, b)
+			}
+		}
+	}
+	return
 }
